@@ -309,13 +309,19 @@ def receiver_root(idx, f, call, tree_base=None):
                 # only a parameter that *is* a tree node (pointer, reference, smart pointer to a class derived from the tree base)
                 import re
                 t = (r.get('type') or {}).get('qualType', '')
+                resolved = False
                 for tn in re.findall(r'[A-Za-z_][\w:]*', t):
                     q = tn if tn in idx.records else idx._resolve_record_name(tn.split('::')[-1], f.cls or f.qname)
                     if q and idx.derives_from(q, tree_base):
                         return 'param'
-                return 'other'
+                    resolved = resolved or bool(q)
+                # a parameter whose type names no class of the repository at all (a template parameter, a container of one): cannot tell
+                return 'other' if resolved else 'unknown'
             if r.get('kind') == 'VarDecl' and r.get('id') in inits:
                 return root(inits[r['id']], d + 1)
+            if r.get('kind') == 'ParmVarDecl':
+                # the parameter of a lambda inside f (an element handed in by an algorithm): where it comes from is not modelled
+                return 'unknown'
             return 'other'
         if k == 'CallExpr':
             return 'other'
@@ -426,12 +432,23 @@ def decide_cycles(idx, cg, within, structural=(), tree_base=None):
         # (1) a call that applies a tree-descent method to a node that is *not* reached from the caller's own node (fetched from a table,
         #     say) can revisit a node: such an edge on a cycle makes the recursion unbounded whatever else the cycle does
         jumps = []
+        unknown = []
         for comp_r in rest:
             cr = set(comp_r)
             for u in comp_r:
                 for v, sites in cg.edges.get(u, {}).items():
                     if v in cr and v in structural and not descent_edge(u, v):
-                        jumps.append((u, v, sites[0]))
+                        roots = [receiver_root(idx, cg.nodes[u], site, tree_base) for site in sites]
+                        if 'other' in roots:
+                            jumps.append((u, v, sites[roots.index('other')]))
+                        else:
+                            unknown.append((u, v, sites[roots.index('unknown')] if 'unknown' in roots else sites[0]))
+        if not jumps and unknown:
+            u, v, site = unknown[0]
+            out.append({'names': names, 'kind': 'undecided', 'bounds': bounds, 'where': pos(site),
+                        'detail': '%s applies the tree-descent method %s at %s to a node handed in through a lambda / template parameter; whether '
+                                  'that is a child of the node being visited is not modelled' % (cg.nodes[u].qname, cg.nodes[v].qname, pos(site))})
+            continue
         if jumps:
             u, v, site = jumps[0]
             out.append({'names': names, 'kind': 'unbounded', 'bounds': bounds, 'where': pos(site),
